@@ -3,6 +3,9 @@ package main
 import (
 	"encoding/json"
 	"fmt"
+	"os"
+	"path/filepath"
+	"regexp"
 
 	"github.com/EdgeCast/vflow/ipfix"
 	netflow9 "github.com/EdgeCast/vflow/netflow/v9"
@@ -119,10 +122,20 @@ func metaMain(args mon.Args) {
 		run.Finish()
 	}
 	n := run.Pick(1200, 40000)
-	mon.ParallelFor(n, func(i int) {
-		g := mon.NewRNG(run.Seed, "meta", i)
+	// pass "trimmed": the site's ipfix.elements file OMITS elements the built-in table has; with it installed those
+	// elements are "missing from the information model" although the code knows them from elsewhere
+	omitted := map[uint16]uint16{2: 8, 85: 8, 86: 8, 136: 1, 148: 8} // element id -> encoded length
+	var snapTrimmed []wire.Elem
+	for _, e := range snap {
+		if _, om := omitted[e.ID]; !(om && e.PEN == 0) {
+			snapTrimmed = append(snapTrimmed, e)
+		}
+	}
+	stream, elems, trimmed := "meta", snap, false
+	body := func(i int) {
+		g := mon.NewRNG(run.Seed, stream, i)
 		proto := []string{"ipfix", "nf9"}[i%2]
-		o := wire.GenOpts{Elems: snap, Varlen: proto == "ipfix", Reduced: true, Options: true, MaxFields: 8, MaxStrLen: 20}
+		o := wire.GenOpts{Elems: elems, Varlen: proto == "ipfix", Reduced: true, Options: true, MaxFields: 8, MaxStrLen: 20}
 		fc := wire.GenFlowCase(g, proto, o)
 		last := len(fc.Dgrams) - 1
 		if len(fc.Expect[last]) == 0 {
@@ -140,7 +153,11 @@ func metaMain(args mon.Args) {
 		used[tuID] = true
 		tu := &wire.Template{ID: tuID}
 		miss := wire.Field{ID: uint16(g.Range(20000, 32000)), Len: uint16(g.Range(1, 8)), Type: "?"}
-		if proto == "ipfix" && g.Bool() {
+		if trimmed {
+			ids := []uint16{2, 85, 86, 136, 148}
+			id := ids[g.Intn(len(ids))]
+			miss = wire.Field{ID: id, Len: omitted[id], Type: "?"}
+		} else if proto == "ipfix" && g.Bool() {
 			miss = wire.Field{PEN: uint32(g.Range(70000, 90000)), ID: uint16(g.Range(1, 500)), Len: uint16(g.Range(1, 8)), Type: "?"}
 		}
 		known1 := wire.FieldOf(g, snap[g.Intn(40)], wire.GenOpts{})
@@ -382,8 +399,37 @@ func metaMain(args mon.Args) {
 			run.Add("truncations", 1)
 			mk("truncate", fmt.Sprintf("cut at octet %d of %d", cut, len(base)), base[:cut])
 		}
-		run.Distinct(fmt.Sprintf("%s|truncate|%s", proto, fc.Desc))
-	})
+		run.Distinct(fmt.Sprintf("%s|truncate|%s|%v", proto, fc.Desc, trimmed))
+	}
+	mon.ParallelFor(n, body)
+	{
+		shipped, err := os.ReadFile(filepath.Join(mon.RepoDir(), "scripts", "ipfix.elements"))
+		if err != nil {
+			run.HarnessError(err.Error())
+			run.Finish()
+		}
+		content := shipped
+		for id := range omitted {
+			re := regexp.MustCompile(fmt.Sprintf(`(?m)^  %d:\n  - \S+\n  - \S+\n`, id))
+			if loc := re.FindIndex(content); loc != nil {
+				content = append(append([]byte{}, content[:loc[0]]...), content[loc[1]:]...)
+			} else {
+				run.HarnessError(fmt.Sprintf("element %d not found in the shipped elements file", id))
+			}
+		}
+		dir := filepath.Join(os.Getenv("VERIF_RUN"), "trimmed-elements")
+		os.MkdirAll(dir, 0o755)
+		os.WriteFile(filepath.Join(dir, "ipfix.elements"), content, 0o644)
+		orig := ipfix.InfoModel
+		if err := ipfix.LoadExtElements(dir); err != nil {
+			run.HarnessError("LoadExtElements(trimmed): " + err.Error())
+		} else {
+			stream, elems, trimmed = "meta-trimmed", snapTrimmed, true
+			mon.ParallelFor(n/4, body)
+			run.Add("messages_checked_with_a_trimmed_elements_file_installed", int64(n/4))
+		}
+		ipfix.InfoModel = orig
+	}
 	// canary: the comparator must notice an altered record
 	{
 		c := &metaCase{Proto: "ipfix", Kind: "insert:canary"}
@@ -403,7 +449,7 @@ func metaMain(args mon.Args) {
 			run.HarnessError("canary: comparator accepted an altered record")
 		}
 	}
-	run.SetRule("metamorphic over the real decoders (IPFIX and NetFlow v9, fresh identically pre-loaded caches): for a generated well-formed message M, (1) at EVERY position between sets a length-consistent undecodable set is inserted - reserved id (ipfix 4..255, v9 2..255), unknown template id, or a known template that uses an element missing from the information model - with 0..64 random body octets, (1a) 2, 7, 8, 9, 16 and 40 undecodable sets of mixed kinds spread over one message, and (1b) a data set of an id that the same message announces only later, placed at every position before that announcement: records must equal those of M exactly and in order and the message must not be rejected; (2) for EVERY cut 0..len(M) the records of M[:cut] must be a prefix of the records of M. distinct = (protocol, kind, position, body length class) / message shape")
+	run.SetRule("metamorphic over the real decoders (IPFIX and NetFlow v9, fresh identically pre-loaded caches): for a generated well-formed message M, (1) at EVERY position between sets a length-consistent undecodable set is inserted - reserved id (ipfix 4..255, v9 2..255), unknown template id, or a known template that uses an element missing from the information model (an id no table has, or - in a second pass with a site elements file installed that omits five built-in elements - one of those) - with 0..64 random body octets, (1a) 2, 7, 8, 9, 16 and 40 undecodable sets of mixed kinds spread over one message, and (1b) a data set of an id that the same message announces only later, placed at every position before that announcement: records must equal those of M exactly and in order and the message must not be rejected; (2) for EVERY cut 0..len(M) the records of M[:cut] must be a prefix of the records of M. distinct = (protocol, kind, position, body length class) / message shape")
 	run.Assume("IPFIX set ids 0 and 1 are 'not used' rather than reserved and are not inserted")
 	run.Finish()
 }
